@@ -40,7 +40,7 @@ var c10Events = []string{
 }
 
 func c10Gen(rt *rapid.T) c10Plan {
-	mode := rapid.SampledFrom([]string{"forge", "forge", "cross-event", "cross-event", "cross-round", "later", "later", "stale-batch"}).Draw(rt, "mode")
+	mode := rapid.SampledFrom([]string{"forge", "forge", "cross-event", "cross-event", "cross-round", "later", "later", "stale-batch", "forge-synth", "forge-synth"}).Draw(rt, "mode")
 	nt := rapid.SampledFrom([][2]int{{2, 2}, {3, 2}, {4, 3}}).Draw(rt, "nt")
 	p := c10Plan{Mode: mode, N: nt[0], T: nt[1], Step: rapid.IntRange(0, 500).Draw(rt, "step"),
 		Other: rapid.IntRange(1, 7).Draw(rt, "other"), Event: rapid.IntRange(0, len(c10Events)-1).Draw(rt, "event"),
@@ -50,6 +50,8 @@ func c10Gen(rt *rapid.T) c10Plan {
 		p.Trace = "tworounds"
 	case "stale-batch":
 		p.Trace = "twobatches"
+	case "forge-synth":
+		p.Trace = rapid.SampledFrom([]string{"honest", "twobatches"}).Draw(rt, "trace")
 	case "later":
 		p.Trace = rapid.SampledFrom([]string{"twobatches", "twobatches", "honest"}).Draw(rt, "trace")
 	default:
@@ -84,6 +86,7 @@ func c10Run(t *testing.T, st *vstat.Stats, p c10Plan) (v *viol) {
 	src := tr.Steps[el[p.Step%len(el)]]
 	target := src
 	var msg storage.Message
+	var synthOwn *storage.Message
 	var key, what string
 	switch p.Mode {
 	case "forge":
@@ -118,6 +121,22 @@ func c10Run(t *testing.T, st *vstat.Stats, p c10Plan) (v *viol) {
 		msg.Event = ne
 		key = fmt.Sprintf("replay:cross-event:%s->%s", src.Msg.Event, ne)
 		what = fmt.Sprintf("%s's genuine %s re-posted unchanged under the event name %s", src.Msg.SenderAddr, src.Msg.Event, ne)
+	case "forge-synth":
+		// a request of any event type acceptable in this state, made out for participant P (who is still awaited)
+		// but signed and sent by another registered participant S
+		evs := c10StateEvents[src.State]
+		if len(evs) == 0 {
+			st.Class("discarded:no-events-for-state")
+			return nil
+		}
+		ev := evs[p.Event%len(evs)]
+		pIdx := p.Other % tr.N
+		sIdx := (pIdx + 1 + p.Later%(tr.N-1)) % tr.N
+		data := c10Synth(ev, pIdx, src.Msg)
+		msg = storage.Message{DkgRoundID: tr.Round, Event: ev, Data: data, SenderAddr: tr.Names[sIdx], Signature: ed25519.Sign(tr.Keys[sIdx].Priv, data)}
+		synthOwn = &storage.Message{DkgRoundID: tr.Round, Event: ev, Data: data, SenderAddr: tr.Names[pIdx], Signature: ed25519.Sign(tr.Keys[pIdx].Priv, data)}
+		key = "forged-participant:" + ev
+		what = fmt.Sprintf("a %s request made out for %s (ParticipantId=%d), signed and sent by %s", ev, tr.Names[pIdx], pIdx, tr.Names[sIdx])
 	case "stale-batch":
 		// a participant's genuine partial signatures for the first batch, re-posted while the second batch is collecting
 		var firsts, seconds []int
@@ -190,7 +209,18 @@ func c10Run(t *testing.T, st *vstat.Stats, p c10Plan) (v *viol) {
 		}
 		// non-triviality: the original is acceptable in its own round and step
 		nontrivial := false
-		if p.Mode == "cross-event" || p.Mode == "later" || p.Mode == "stale-batch" {
+		if p.Mode == "forge-synth" {
+			// non-trivial iff the very same request, signed by the participant it is made out for, is accepted here
+			nd2, dir2, err := openSnapshot(tr, src.SnapDir)
+			if err == nil {
+				nontrivial = nd2.Svc.ProcessMessage(*synthOwn) == nil
+				nd2.Close()
+			}
+			os.RemoveAll(dir2)
+			if nontrivial {
+				st.Class("forge-synth:" + msg.Event)
+			}
+		} else if p.Mode == "cross-event" || p.Mode == "later" || p.Mode == "stale-batch" {
 			nontrivial = true // the original was accepted when the trace was recorded; the replay names a step it was not made for
 		} else {
 			nd2, dir2, err := openSnapshot(tr, src.SnapDir)
@@ -213,4 +243,42 @@ func TestC10(t *testing.T) {
 	st := vstat.New("C10")
 	defer finish(t, st)
 	rapidProp(t, st, "foreign", perShard(pick(2400, 80000)), 1, c10Gen, func(p c10Plan) *viol { return c10Run(t, st, p) })
+}
+
+// events a participant may legitimately send in each state
+var c10StateEvents = map[string][]string{
+	"state_sig_proposal_await_participants_confirmations": {"event_sig_proposal_confirm_by_participant", "event_sig_proposal_decline_by_participant"},
+	"state_dkg_commits_await_confirmations":               {"event_dkg_commit_confirm_received", "event_dkg_commit_confirm_canceled_by_error"},
+	"state_dkg_deals_await_confirmations":                 {"event_dkg_deal_confirm_received", "event_dkg_deal_confirm_canceled_by_error"},
+	"state_dkg_responses_await_confirmations":             {"event_dkg_response_confirm_received", "event_dkg_response_confirm_canceled_by_error"},
+	"state_dkg_master_key_await_confirmations":            {"event_dkg_master_key_confirm_received", "event_dkg_master_key_confirm_canceled_by_error"},
+	"stage_signing_idle":                                  {"event_signing_start"},
+	"state_signing_await_partial_signs":                   {"event_signing_partial_sign_received", "event_signing_partial_sign_error_received"},
+}
+
+// c10Synth builds a well-formed request of the given event type for participant pid. For partial signatures the batch
+// id is taken from the genuine message of the step (so that the request is for the current batch).
+func c10Synth(ev string, pid int, genuine storage.Message) []byte {
+	now := "2000-01-01T00:10:00Z"
+	var v map[string]any
+	switch ev {
+	case "event_sig_proposal_confirm_by_participant", "event_sig_proposal_decline_by_participant":
+		v = map[string]any{"ParticipantId": pid, "CreatedAt": now}
+	case "event_dkg_commit_confirm_received":
+		v = map[string]any{"ParticipantId": pid, "Commit": []byte("[]"), "CreatedAt": now}
+	case "event_dkg_deal_confirm_received":
+		v = map[string]any{"ParticipantId": pid, "Deal": []byte("self-confirm"), "CreatedAt": now}
+	case "event_dkg_response_confirm_received":
+		v = map[string]any{"ParticipantId": pid, "Response": []byte("[]"), "CreatedAt": now}
+	case "event_dkg_master_key_confirm_received":
+		v = map[string]any{"ParticipantId": pid, "MasterKey": []byte("key"), "CreatedAt": now}
+	case "event_signing_start":
+		v = map[string]any{"BatchID": "synthetic-batch", "ParticipantId": pid, "CreatedAt": now, "SigningTasks": []map[string]any{{"MessageID": "m", "Payload": []byte("p")}}}
+	case "event_signing_partial_sign_received":
+		v = map[string]any{"BatchID": batchIDOf(genuine.Data), "ParticipantId": pid, "CreatedAt": now, "PartialSigns": []map[string]any{{"MessageID": "m", "Sign": []byte("s")}}}
+	default: // the error reports
+		v = map[string]any{"ParticipantId": pid, "Error": "reported in somebody else's name", "CreatedAt": now}
+	}
+	bz, _ := json.Marshal(v)
+	return bz
 }
